@@ -26,13 +26,18 @@ theorem C05_attempts_sequential (as : List Act) (j : Job) (bs : List Act) (s' : 
   simp only [step] at hstep
   split at hstep
   · rename_i hg
-    obtain ⟨hjm, hdel, _⟩ := hg
+    obtain ⟨hjm, hdel, _, _, _, hnone⟩ := hg
     apply Classical.byContradiction
     intro hnd
-    obtain ⟨x, hx, hxd, hxf⟩ := hinv.i2.live (d, j.fut) hd hnd
-    have := same_job_of_same_fut hinv.i1.r1 hx hjm hxf
-    subst this
-    rw [hdel] at hxd; cases hxd
+    cases hinv.i2.live (d, j.fut) hd hnd with
+    | inl hl =>
+      obtain ⟨x, hx, hxd, hxf⟩ := hl
+      have := same_job_of_same_fut hinv.i1.r1 hx hjm hxf
+      subst this
+      rw [hdel] at hxd; cases hxd
+    | inr hr =>
+      obtain ⟨nj, hnj, _⟩ := hr
+      rw [hnone] at hnj; cases hnj
   · cases hstep
 
 /-- (never early) Attempt k+1 is handed to the delegate only at a time `now ≥ t0 + sleep`, where `t0` is the time of the
@@ -88,6 +93,7 @@ theorem C05_no_early_resolution (s s' : St) (a : Act) (f : Nat) (h : step s a = 
     split at h
     · split at h <;> (cases h; exact absurd h1 h0)
     · cases h
+  | submitApp => simp only [step] at h; split at h <;> cases h; exact absurd h1 h0
   | ddone d c => simp only [step] at h; split at h <;> cases h; exact absurd h1 h0
   | cbPolicy d r =>
     simp only [step] at h
@@ -170,14 +176,18 @@ theorem C05_eval_policy_facts :
 def j0 : Job := ⟨0, 0, 0, none, false, none⟩
 def j1 : Job := ⟨0, 1, 2, none, false, some 0⟩
 def demoRun : List Act :=
-  [.submit 0, .submitNow j0, .ddone 0 false, .cbPolicy 0 (some (.retry 2)), .cbRetry 0, .tick 2, .submitNow j1,
-   .ddone 1 false, .cbPolicy 1 (some .stopNow), .cbFinal 1]
+  [.submit 0, .submitNow j0, .submitApp, .ddone 0 false, .cbPolicy 0 (some (.retry 2)), .cbRetry 0, .tick 2, .submitNow j1,
+   .ddone 1 false, .submitApp, .cbPolicy 1 (some .stopNow), .cbFinal 1]
 
 example : (run init demoRun).isSome = true := by decide
 example : ((run init demoRun).map (fun s => (s.submits, s.policyLog, s.done))) =
     some ([(0, 1, 0), (0, 2, 2)], [(0, 1), (0, 2)], [0]) := by decide
+/-- the delegate's done-callback cannot act before `_submit_now` has appended the in-flight job (it is attached afterwards) -/
+example : (run init [.submit 0, .submitNow j0, .ddone 0 false, .cbPolicy 0 (some .stopNow)]).isSome = false := by decide
+/-- a `cancel()` of the future is excluded while `_submit_now` is between its two sections (the future's lock is held) -/
+example : (run init [.submit 0, .submitNow j0, .cancelScan 0]).isSome = false := by decide
 /-- and an early second attempt is NOT a run of the model -/
-example : (run init [.submit 0, .submitNow j0, .ddone 0 false, .cbPolicy 0 (some (.retry 2)), .cbRetry 0, .tick 1, .submitNow j1]).isSome = false := by
+example : (run init [.submit 0, .submitNow j0, .submitApp, .ddone 0 false, .cbPolicy 0 (some (.retry 2)), .cbRetry 0, .tick 1, .submitNow j1]).isSome = false := by
   decide
 
 end MoreExec.Retry
